@@ -295,5 +295,64 @@ def run_mixed(case):
     return ok(with_x >= 3 and len(calls) >= 5, classes, {'sets': len(calls), 'with_ephemeral': with_x, 'together': with_both})
 
 
-PARTS = [Part('mixed_receiver', run_mixed, strategy=mixed_strategy, examples={'quick': 250, 'thorough': 5000}),
+# ---- part 3: a synchronized consumer that also has an ephemeral source stays a synchronized consumer ---------------------------------
+# "never changes which frames the synchronized consumers receive", for the consumer that rejoins an ephemeral branch: whatever the order
+# of its sources it must still hold its synchronized publisher back. Long run, one slow/stalling consumer F = [E?, S] or [S, E?], a fast
+# sibling G; SUB queues bounded (PUB/SUB drops at its high-water mark) - a synchronized consumer never has more than a few frames in
+# flight (C04), so the bound of 80 messages is only ever reached if the publisher stopped waiting for it.
+
+@st.composite
+def lagging_strategy(draw, tier):
+    return {
+        'n': draw(st.sampled_from([120, 200])), 'order': draw(st.sampled_from(['eph_first', 'eph_last'])), 'mark': draw(st.sampled_from(['?', '?', '??'])),
+        'src_work': [draw(st.sampled_from([3, 5]))], 'f_work': [draw(st.sampled_from([0, 20, 50]))],
+        'stall': {'at': draw(st.integers(0, 6)), 'ms': draw(st.sampled_from([0, 1500, 2500]))},
+        'e_work': [draw(st.sampled_from([5, 40]))], 'sibling': draw(st.booleans()),
+        'net': {**draw(scen.net_strategy(classes=('fast', 'lan'), max_drops=0)), 'sub_hwm': 80},
+        'starts': draw(st.lists(st.sampled_from([0, 0, 40, 300]), min_size=4, max_size=4)), 'ipc': draw(st.booleans()),
+    }
+
+
+def run_lagging(case):
+    harness = _S['harness']
+    st_, n = case['starts'], case['n']
+    syncs = ['F'] + (['G'] if case['sibling'] else [])
+    fbeh = {'kind': 'sink', 'work': case['f_work']}
+    if case['stall']['ms']:
+        fbeh['stall'] = dict(case['stall'])
+    esrc = 'E' + case['mark'] + ';aux>side'
+    nodes = [{'id': 'S', 'beh': {'kind': 'src', 'n': n, 'work': case['src_work']}, 'required': syncs, 'start': st_[0]},
+             {'id': 'E', 'beh': {'kind': 'src', 'n': 10 * n, 'work': case['e_work'], 'topics': ['aux']}, 'start': st_[1]},
+             {'id': 'F', 'sources': [esrc, 'S'] if case['order'] == 'eph_first' else ['S', esrc], 'nout': 0, 'beh': fbeh, 'start': st_[2]}]
+    if case['sibling']:
+        nodes.append({'id': 'G', 'sources': ['S'], 'nout': 0, 'beh': {'kind': 'sink', 'work': [0]}, 'start': st_[3]})
+    p = harness.Pipeline(nodes, net=case['net'], seed=9, ipc=case.get('ipc', False))
+    try:
+        p.start_all()
+
+        def done():
+            return all((c := p.process_calls(k)) and any(pv and pv.get('origin') == 'S' and pv.get('seq') == n - 1 for pv in c[-1]['in'].values()) for k in syncs)
+        p.run(30_000 + n * (case['f_work'][0] + 60) + case['stall']['ms'], stop=done)
+        seqs = {k: [pv['seq'] for r in p.process_calls(k) for t, pv in r['in'].items() if pv and pv.get('origin') == 'S'] for k in syncs}
+        side = sum(1 for r in p.process_calls('F') if r['in'].get('side'))
+        drops = sum(1 for e in p.world.log if e[0] == 'hwm_drop' and e[3] == 'F' and e[2] == 'S')
+        raised = [(k, e) for k, e in p.ends.items() if e['how'] == 'raised']
+    finally:
+        p.finish()
+    classes = [f'sources {case["order"]}', f'mark {case["mark"]}', 'with a fast sibling' if case['sibling'] else 'sole synchronized consumer',
+               'consumer stalls' if case['stall']['ms'] else 'consumer merely slow']
+    if raised:
+        return bad(f'filter {raised[0][0][0]} ended with {raised[0][1]["exc"]}', f'filter-raised:{raised[0][1].get("type")}', classes)
+    for k in syncs:
+        if seqs[k] != list(range(n)):
+            missing = sorted(set(range(n)) - set(seqs[k]))
+            return bad(f'synchronized consumer {k} (sources {nodes[2]["sources"] if k == "F" else ["S"]}) received {len(seqs[k])} of {n} frames, missing {missing[:6]}...: '
+                       f'its publisher did not wait for it ({drops} publishes dropped at its full queue)', f'sync-consumer-loses-frames:{case["order"]}', classes)
+    if side:
+        classes.append('ephemeral frames delivered beside the synchronized ones')
+    return ok(side >= 3 and (case['stall']['ms'] > 0 or case['f_work'][0] >= 20), classes, {'frames': n, 'with_side': side})
+
+
+PARTS = [Part('sync_beside_ephemeral', run_lagging, strategy=lagging_strategy, examples={'quick': 40, 'thorough': 600}),
+         Part('mixed_receiver', run_mixed, strategy=mixed_strategy, examples={'quick': 250, 'thorough': 5000}),
          Part('differential', run_case, strategy=case_strategy, examples={'quick': 200, 'thorough': 4000})]
